@@ -793,6 +793,10 @@ class Model:
         #TODO this is the same as the evaluate_equation method. Replace it.
         return self.memoize(equation,t)
 
+    def grid_time(self, t):
+        """The point of the simulation time grid that t denotes: time arithmetic such as t-dt is a float rounding error away from it (0.3-0.1 is 0.19999999999999998)."""
+        return fp.normalize(t, self.dt, self.starttime, max(fp.scale(self.starttime), fp.scale(self.dt)))
+
     def memoize(self, equation, arg):
         #TODO: consider making this into an internal method
 
